@@ -1,4 +1,5 @@
 mod adapter;
+mod cli;
 mod gen;
 mod ir;
 mod ops;
@@ -27,6 +28,8 @@ macro_rules! dispatch {
             "C10" => $f(&props::hist::HistProp $(, $arg)*),
             "C11" => $f(&props::hist::StopProp $(, $arg)*),
             "C12" => $f(&props::opt::BoundsProp $(, $arg)*),
+            "C14" => $f(&props::dimacs::CnfProp $(, $arg)*),
+            "C15" => $f(&props::dimacs::WcnfProp $(, $arg)*),
             "C17" => $f(&props::expl::ExplProp $(, $arg)*),
             "C18" => $f(&props::branch::BranchProp $(, $arg)*),
             "C19" => $f(&props::drcp::DrcpProp $(, $arg)*),
